@@ -141,11 +141,16 @@ func VerifC28_multi() {
 	execs := make([]int, n)
 	attempts := 0
 	maxAttempts := verifParam("max_attempts", 3)
-	sc.doMulti = func(ctx context.Context, m []Completed) []RedisResult {
+	loadingAt := -1 // the last attempt in which one command alone was answered LOADING
+	serve := func(m []Completed) []RedisResult {
 		attempts++
 		verifAssert(len(m) == n, "the whole batch is sent")
 		rs := make([]RedisResult, len(m))
-		if attempts < maxAttempts && verifChoose(2) == 1 {
+		mode := 0
+		if attempts < maxAttempts {
+			mode = verifChoose(3)
+		}
+		if mode == 1 {
 			done := verifChoose(len(m) + 1) // the server executed this many commands before the connection dropped
 			for i := range rs {
 				if i < done {
@@ -156,14 +161,44 @@ func VerifC28_multi() {
 			verifReach("dropped")
 			return rs
 		}
+		at := -1
+		if mode == 2 {
+			at = verifChoose(len(m)) // the server executes all but this one, which it answers with LOADING
+			loadingAt = attempts
+			verifReach("loading")
+		}
 		for i := range rs {
+			if i == at {
+				rs[i] = verifErrReply("LOADING Redis is loading the dataset in memory")
+				continue
+			}
 			execs[i]++
 			rs[i] = NewResult(strmsg(typeSimpleString, "OK"), nil)
 		}
 		return rs
 	}
-	resps := client.DoMulti(context.Background(), multi...)
+	sc.doMulti = func(ctx context.Context, m []Completed) []RedisResult { return serve(m) }
+	var resps []RedisResult
+	if verifChoose(2) == 1 {
+		// the same batch through a dedicated client (dedicatedSingleClient.DoMulti over the acquired wire)
+		d, release := client.Dedicate()
+		sc.acquired.doMultiFn = serve
+		resps = d.DoMulti(context.Background(), multi...)
+		release()
+		verifReach("dedicated")
+	} else {
+		resps = client.DoMulti(context.Background(), multi...)
+	}
 	verifAssert(len(resps) == n, "one result per command")
+	if loadingAt == attempts {
+		seen := false
+		for i := range resps {
+			if e, ok := IsRedisErr(resps[i].Error()); ok && e.IsLoading() {
+				seen = true
+			}
+		}
+		verifAssert(seen, "a LOADING reply that is not retried is returned as it is")
+	}
 	allRetryable := true
 	for i := range kinds {
 		if kinds[i] == 0 {
